@@ -86,6 +86,10 @@ func c12Mechs(sess int) []string {
 // answered; then A's answer is completed. Every reply must be the one the reference function gives
 // for that connection's own state and that session's own mechanism list.
 func c12Multi(ctx *core.Ctx, c c12Case) {
+	if strings.HasPrefix(c.Multi, "overlap") && gaveUp("c12overlap") {
+		ctx.Add("cases_skipped_after_an_established_hang", 1)
+		return
+	}
 	ctx.Eval(fmt.Sprintf("%+v", c), true)
 	rig := wire.NewRig(rec.Auth, func(s *smtp.Server) {
 		s.LMTP = c.LMTP
@@ -248,6 +252,9 @@ func c12Multi(ctx *core.Ctx, c c12Case) {
 			return
 		}
 		rb := ehlo(b, "b.test")
+		if rb.Code == 0 {
+			giveUp("c12overlap") // B is not answered while A's greeting is in progress: every such case costs a watchdog period
+		}
 		judge("connection B (greeted while A's greeting is in progress)", rb, 2, bTLS)
 		gate.Open("mechs")
 		ra, _ := a.ReadUntilStall()
